@@ -632,3 +632,64 @@ def r7_result_tested(ck, P):
                 ck.ok(R, what)
             else:
                 ck.violation(R, f.name, 'unchecked result of %s' % c.callee, '%s never compares the result of %s with NULL (nor returns it): when the allocation fails the function carries on and the failure is lost or later overwritten' % (f.name, c.callee), c.loc())
+
+
+def r9_failure_is_atomic(ck, P):
+    """T-ORD: a setter that reports an allocation failure has not touched the object yet"""
+    R = ck.rule('C15-R9', 'in every exported setter of an image, no field of the image is stored on a path that leads to the fallible allocation whose failure makes the call return FALSE: a refused call leaves the image exactly as it was (filter kind and parameter block, transform, ... stay consistent)', floor=1)
+    MRN = may_return_null(P)
+    n = 0
+    for f in common.public_api(P):
+        if not f.params or 'pixman_image' not in f.params[0][1]:
+            continue
+        allocs = [c for c in f.calls() if (c.callee in EXTERNAL_ALLOC or (isinstance(c.callee, str) and P.resolve(f, c.callee) in MRN)) and c.ty.endswith('*')]
+        if not allocs:
+            continue
+        for c in allocs:
+            # does the failure of c lead to `return FALSE`?
+            fail_ret = False
+            A = {c.i}; work = [c]
+            while work:
+                x_ = work.pop()
+                for y in f.users(x_):
+                    if y.op in ('phi', 'bitcast', 'select') and y.i not in A:
+                        A.add(y.i); work.append(y)
+            for y in f.insts():
+                if y.op == 'icmp' and any(o[0] == 'n' for o in y.a) and any(o[0] == 'v' and o[1] in A for o in y.a):
+                    for br in f.users(y):
+                        if br.op != 'br':
+                            continue
+                        null_side = br.d['succ'][0] if y.d['p'] == 'eq' else br.d['succ'][1]
+                        for b_ in f.reachable_blocks(null_side):
+                            t = f.blocks[b_].term
+                            if t.op == 'ret' and t.a:
+                                v = t.a[0]
+                                if v[0] == 'c' and int(v[1]) == 0:
+                                    fail_ret = True
+                                ph = f.v(v)
+                                if ph is not None and ph.op == 'phi' and any(a[0] == 'c' and int(a[1]) == 0 for a in ph.a):
+                                    fail_ret = True
+            if not fail_ret:
+                continue
+            n += 1; ck.saw(f)
+            bad = None
+            for s_ in f.insts():
+                if s_.op != 'store':
+                    continue
+                p = f.path(s_.a[1])
+                if f.root(p) != ('arg', 0) or not f.last_field(p) or p[0][0] == 'load':
+                    continue
+                if (f.last_field(p) or '').endswith(('.dirty',)):
+                    continue
+                if s_.a[0][0] == 'v' and s_.a[0][1] in A:
+                    continue
+                # the store can be followed by the allocation
+                if f.reach_avoiding(s_, lambda y: False, lambda y: y is c) is not None:
+                    bad = s_; break
+            where = '%s: allocation %s at %s' % (f.name, c.callee, c.loc())
+            if bad is None:
+                ck.ok(R, where, 'no field of the image is stored before it')
+            else:
+                ck.violation(R, f.name, 'image modified before a fallible allocation', '%s stores %s (%s) before the allocation at %s whose failure makes it return FALSE: after a refused call the image is half updated - e.g. the filter kind already switched while the parameter block is still the old one - and is no longer safe to draw with' % (f.name, f.last_field(f.path(bad.a[1])), bad.loc(), c.loc()), bad.loc())
+    if n == 0:
+        ck.incomplete(R, 'no exported image setter with a fallible allocation found')
